@@ -85,6 +85,30 @@ pub fn make(prop: &str, tier: Tier, seed: u64) -> Scenario {
             threshold_history(&mut s, &mut r);
             s
         }
+        "C02" if r.chance(1, 8) => {
+            // two keys differing first at bit d (every d is reached: d = seed mod 256), alone or
+            // next to a few others; then one of them deleted (internal node collapses to a leaf)
+            let d = (seed % 256) as usize;
+            let mut c = checks_all();
+            c.witness = false; c.multiproof = false; c.proofs = false; c.reopen_equal = false;
+            let mut s = gen_history(prop, seed, Profile::default(), c);
+            let base = r.bytes32();
+            let rt = r.chance(1, 2);
+            let other = diverge_at(&mut r, &base, d, rt);
+            let mut keys = vec![base, other];
+            for _ in 0..r.range(0, 3) { let l = r.usize(256); let k = diverge_at(&mut r, &base, l, true); if !keys.contains(&k) { keys.push(k); } }
+            keys.sort();
+            let mut stamp = 0u32;
+            let items: Vec<(K, Act)> = keys.iter().map(|k| { stamp += 1; (K(*k), Act::Write(Some(VSpec { len: *r.pick(&[0u32, 7, 1332, 1333]), stamp }))) }).collect();
+            let mut steps = vec![Step::Commit { batch: Batch { items, ..Default::default() }, nonblocking: false }];
+            steps.push(Step::Commit { batch: Batch { items: vec![(K(other), Act::Write(None))], ..Default::default() }, nonblocking: false });
+            if r.chance(1, 2) { steps.push(Step::Reopen { opts: regen_opts(&mut r, &s.opts, true) }); }
+            steps.push(Step::Commit { batch: Batch { items: vec![(K(other), Act::Write(Some(VSpec { len: 5, stamp: 99 })))], ..Default::default() }, nonblocking: false });
+            steps.push(Step::DeleteAll { keep: *r.pick(&[0usize, 1]) });
+            s.steps = steps;
+            s.probes = vec![K(diverge_at(&mut r, &base, d, false)), K(diverge_at(&mut r, &other, 255, false))];
+            s
+        }
         "C02" => {
             let mut p = Profile::default();
             big(&mut r, &mut p, tier);
